@@ -114,6 +114,10 @@ func paths(tier string) []pathCase {
 	cubeSz := closed(open(o, menu[6], ln(-1, -2)))
 	serpz := closed(open(o, menu[13], ln(-2, 1)))
 	ps = append(ps, arcRotz, arcLargez, cubeSz, serpz, concat(tri, arcRotz))
+	// 200 degrees of a 10 x 6 ellipse from -45 degrees: more than a half turn that starts off the
+	// axes (the length of such an arc is the sum of unequal quarter turns)
+	ps = append(ps, open(oracle.Pt{X: 10 * math.Cos(-math.Pi/4), Y: 6 * math.Sin(-math.Pi/4)},
+		seg{"arc-10x6-200deg-from-minus-45", oracle.CmdArc, []float64{10, 6, 0, 3, 10*math.Cos(155*math.Pi/180) - 10*math.Cos(-math.Pi/4), 6*math.Sin(155*math.Pi/180) - 6*math.Sin(-math.Pi/4)}}))
 	ps = append(ps, tri, triPt, quadz, circle, cubez,
 		concat(open(o, menu[1]), open(oracle.Pt{X: 5, Y: 1}, menu[8])),                    // two open subpaths
 		concat(open(o, menu[0]), closed(open(oracle.Pt{X: 0, Y: 5}, ln(4, 0), ln(0, 3)))), // open | closed
